@@ -24,6 +24,7 @@ deriving DecidableEq, Repr
 
 inductive Err where
   | backendNotExist | backendTooSmall | cacheTooShort | invalidData | verifyFailed
+  | backendFail      -- transient failure of the wrapped backend's Load
 deriving DecidableEq, Repr
 
 inductive Res where
@@ -55,35 +56,65 @@ def slice (c : Bytes) (length offset : Nat) : Bytes :=
 def readCell (c : Bytes) (length offset : Nat) : Res :=
   if c.length < offset + length then .err .cacheTooShort else .ok (slice c length offset)
 
-/-- `Backend.Load` of the wrapped (in-memory) backend -/
-def beLoad (be : Option Bytes) (length offset : Nat) : Res :=
-  match be with
-  | none => .err .backendNotExist
-  | some d => if d.length < offset + length then .err .backendTooSmall else .ok (slice d length offset)
+/-- fault of one `Load` of the wrapped backend: none; failure before the consumer runs; or the
+    body ends early with a clean EOF after `n` bytes, the consumer returns nil, and only then `Load`
+    reports the error (`util.DefaultLoad` returns `rd.Close()`'s error) -/
+inductive Fault where
+  | none | failBefore | late (n : Nat)
+deriving DecidableEq, Repr
+
+/-- `Backend.Load` of the wrapped backend with the caller's consumer (reads everything it gets).
+    A late failure yields an error, but the consumer has already seen (truncated) data. -/
+def beLoad (be : Option Bytes) (length offset : Nat) (f : Fault := .none) : Res :=
+  match f with
+  | .failBefore => .err .backendFail
+  | _ =>
+    match be with
+    | none => .err .backendNotExist
+    | some d =>
+      if d.length < offset + length then .err .backendTooSmall
+      else match f with
+        | .late n => .errWithData .backendFail ((slice d length offset).take n)
+        | _ => .ok (slice d length offset)
+
+/-- faults of the (at most two) backend loads inside one `cacheBackend.Load`: `dl` for the download
+    by `cacheFile`, `be` for the direct / fall-back load with the caller's consumer -/
+structure Faults where
+  dl : Fault := .none
+  be : Fault := .none
+deriving DecidableEq, Repr
 
 /-- `cacheBackend.Load` (one loader at a time; `a1` acts between the first cache miss and
     `cacheFile`'s `Has`, `a2` between the download and the second `loadFromCache`) -/
-def cbLoad (k : Kind) (length offset : Nat) (a1 a2 : Adv) (s : S) : S × Res :=
+def cbLoad (k : Kind) (length offset : Nat) (a1 a2 : Adv) (s : S) (f : Faults := {}) : S × Res :=
   -- inCache, err := b.loadFromCache(...)
   match (if k = .notCacheable then none else s.cell) with
   | some c => (s, readCell c length offset)            -- "the caller must explicitly use cache.Forget()"
   | none =>
-    if k ≠ .autoCached then (s, beLoad s.be length offset)
+    if k ≠ .autoCached then (s, beLoad s.be length offset f.be)
     else
       let s := applyAdv a1 s
-      -- cacheFile: `if !b.Cache.Has(h)` download and store, on error remove
+      -- cacheFile: `if !b.Cache.Has(h)` download with `Cache.save` as consumer; whenever the
+      -- download returns an error — also one reported after the consumer stored a (truncated)
+      -- body — the entry is removed again: `if err != nil { b.Cache.remove(h) }`
       let dl : S × Option Err :=
         if s.cell.isSome then (s, none)
-        else match s.be with
-          | none => ({ s with cell := none }, some .backendNotExist)
-          | some d => ({ s with cell := some d }, none)
+        else match f.dl with
+          | .failBefore => ({ s with cell := none }, some .backendFail)
+          | fl =>
+            match s.be with
+            | none => ({ s with cell := none }, some .backendNotExist)
+            | some d =>
+              match fl with
+              | .late _ => ({ s with cell := none }, some .backendFail)
+              | _ => ({ s with cell := some d }, none)
       match dl.2 with
       | some e => (dl.1, .err e)
       | none =>
         let s := applyAdv a2 dl.1
         match s.cell with
         | some c => (s, readCell c length offset)
-        | none => (s, beLoad s.be length offset)       -- "falling back to backend"
+        | none => (s, beLoad s.be length offset f.be)  -- "falling back to backend"
 
 /-- `Cache.Forget`: at most once per run, and only marks when a file was really removed -/
 def forget (k : Kind) (s : S) : S :=
@@ -96,36 +127,46 @@ structure Advs where
   a2 : Adv := none
   a3 : Adv := none
   a4 : Adv := none
+  f1 : Faults := {}      -- backend faults during the first / second `cacheBackend.Load`
+  f2 : Faults := {}
 deriving Repr
 
+/-- what `loadRaw`'s consumer left in `buf` -/
 def bufOf : Res → Bytes
   | .ok b => b
+  | .errWithData _ b => b
   | _ => []
 
 /-- `Repository.LoadRaw` (whole file: length 0, offset 0) -/
 def loadRaw {ID : Type} [DecidableEq ID] (hash : Bytes → ID) (id : ID) (k : Kind) (isConfig : Bool)
     (adv : Advs) (s : S) : S × Res :=
-  let r1 := cbLoad k 0 0 adv.a1 adv.a2 s
+  let r1 := cbLoad k 0 0 adv.a1 adv.a2 s adv.f1
   if !isConfig && decide (hash (bufOf r1.2) ≠ id) then
     let s2 := forget k r1.1
-    let r2 := cbLoad k 0 0 adv.a3 adv.a4 s2
+    let r2 := cbLoad k 0 0 adv.a3 adv.a4 s2 adv.f2
     match r2.2 with
     | .ok b => if hash b ≠ id then (r2.1, .errWithData .invalidData b) else (r2.1, .ok b)
+    | .errWithData e _ => (r2.1, .err e)
     | e => (r2.1, e)
-  else r1
+  else
+    -- `if err != nil { return nil, err }`
+    match r1.2 with
+    | .errWithData e _ => (r1.1, .err e)
+    | _ => r1
 
 /-- The core of `LoadBlob` for a blob stored in one pack: `loadBlob` reads the blob's range and
     verifies it (`verify` = decrypt, decompress, compare the content address: C02); on any error the
     pack is forgotten and the read is tried once more. -/
 def loadBlob1 (verify : Bytes → Bool) (k : Kind) (length offset : Nat) (adv : Advs) (s : S) : S × Res :=
-  let try1 := cbLoad k length offset adv.a1 adv.a2 s
+  let try1 := cbLoad k length offset adv.a1 adv.a2 s adv.f1
   let ok1 : Bool := match try1.2 with | .ok b => verify b | _ => false
   if ok1 then try1
   else
     let s2 := forget k try1.1
-    let try2 := cbLoad k length offset adv.a3 adv.a4 s2
+    let try2 := cbLoad k length offset adv.a3 adv.a4 s2 adv.f2
     match try2.2 with
     | .ok b => if verify b then try2 else (try2.1, .err .verifyFailed)
+    | .errWithData e _ => (try2.1, .err e)
     | e => (try2.1, e)
 
 /-! ### executable statement of C38 for one load -/
@@ -162,6 +203,22 @@ def specViolation (good : Bytes → Bool) (k : Kind) (interference : Bool) (befo
       else none
     | none => none
   c1 <|> c2 <|> c3
+
+/-- The cache by itself never stores or serves wrong bytes: statement for one
+    `cacheBackend.Load` when nobody else writes to the cache directory. `cellOK` = the cell is
+    absent or equals the repository's file. -/
+def cellOK (s : S) : Bool := s.cell == none || s.cell == s.be
+
+def cbSpecViolation (length offset : Nat) (before : S) (res : Res) (cellAfter : Option Bytes) : Option String :=
+  if !cellOK before then none else
+  let c1 : Option String := match res with
+    | .ok b => (match before.be with
+      | some d => if b == slice d length offset then none else some "ok-with-bytes-differing-from-repository"
+      | none => some "ok-for-file-not-in-repository")
+    | _ => none
+  let c2 : Option String :=
+    if cellAfter == none || cellAfter == before.be then none else some "cache-stores-bytes-differing-from-repository"
+  c1 <|> c2
 
 def specOK (good : Bytes → Bool) (k : Kind) (interference : Bool) (before : S) (res : Res) (cellAfter : Option Bytes) : Bool :=
   (specViolation good k interference before res cellAfter).isNone
